@@ -149,6 +149,10 @@ func GenE2(prop string, seed uint64) *Program {
 		scenario = "backfill-race"
 		prog.NColl = 1 + r.Intn(2)
 		nk = 1 + r.Intn(3)
+	case "C14":
+		scenario = "expiry-race"
+		nk = 1
+		prog.OnDisk = r.Chance(25)
 	case "C15":
 		scenario = "ckpt"
 		nk = 1 + r.Intn(3)
@@ -383,6 +387,33 @@ func GenE2(prop string, seed uint64) *Program {
 		}
 		prog.NoLin = true
 		prog.NoFeedOracle = true
+	case "expiry-race":
+		// a document is about to expire; clients that sleep until around its deadline then lengthen,
+		// clear or keep its expiry while the timer's callback is (parked) in the middle of its sweep
+		prog.NoLin, prog.NoFeedOracle = true, true
+		due := uint32(2 + r.Intn(3))
+		prog.Setup = append(prog.Setup, Op{Kind: "Set", Key: g.keys[0], Body: strp(`{"v":1}`), ExpKind: 2, ExpVal: due})
+		for t := 0; t < 1+r.Intn(2); t++ {
+			ops := []Op{{Kind: "Sleep", Dur: int(due) - 1 + r.Intn(3)}}
+			var op Op
+			switch r.Intn(6) {
+			case 0:
+				op = Op{Kind: "Touch", ExpKind: 2, ExpVal: 500}
+			case 1:
+				op = Op{Kind: "Touch", ExpKind: 0}
+			case 2:
+				op = Op{Kind: "Set", Body: strp(fmt.Sprintf(`{"v":%d}`, g.uniq())), ExpKind: 2, ExpVal: 500}
+			case 3:
+				op = Op{Kind: "Set", Body: strp(fmt.Sprintf(`{"v":%d}`, g.uniq()))}
+			case 4:
+				op = Op{Kind: "GetAndTouchRaw", ExpKind: 2, ExpVal: 300}
+			default:
+				op = Op{Kind: "UpdateXattrs", Xattrs: map[string]string{"_sync": `{"r":1}`}, CasMode: "cur", ExpKind: 2, ExpVal: 400}
+			}
+			op.Key, op.Handle = g.keys[0], r.Intn(prog.NHandles)
+			ops = append(ops, op, Op{Kind: "GetRaw", Key: g.keys[0]})
+			prog.Tasks = append(prog.Tasks, ops)
+		}
 	case "rev-race":
 		g.setupDocs(prog, 80)
 		w := weights{"Touch": 10, "GetAndTouchRaw": 4, "Set": 6, "SetXattrs": 4, "Incr": 2, "Delete": 2, "Add": 2, "UpdateXattrs": 2, "WriteCas": 3, "DeleteSubDocPaths": 1, "GetWithXattrs": 2}
